@@ -22,6 +22,7 @@ import (
 	"strconv"
 	"strings"
 	"sync"
+	"sync/atomic"
 	"testing"
 	"time"
 
@@ -82,6 +83,7 @@ type vfC13Summary struct {
 	Hang     string `json:"hang"`     // executeQuery / an execution did not finish (watchdog)
 	Events   int    `json:"events"`
 	Panic    string `json:"panic"`
+	Skipped  bool   `json:"skipped"` // not executed: too many executions hung before
 }
 
 // scripted error: one object per attempt, so "the last attempt's error" is an identity
@@ -603,7 +605,12 @@ func (r *vfC13Run) logLen() int {
 
 // ---------------------------------------------------------------- replay of a model behaviour
 
-const vfC13Settle = 1500 * time.Millisecond
+const vfC13Settle = 1000 * time.Millisecond
+
+// after this many hung executions the remaining cases are skipped (a hang costs a watchdog period)
+const vfC13MaxHangs = 6
+
+var vfC13Hangs int32
 
 // vfC13Replay forces the real executor through the model behaviour c.Hist.
 func vfC13Replay(c *vfC13Case, polName string) (sum vfC13Summary, begin vfC13Begin, log []vfC13Ev) {
@@ -748,6 +755,13 @@ func vfC13Replay(c *vfC13Case, polName string) (sum vfC13Summary, begin vfC13Beg
 			}
 		case "cancel":
 			r.mu.Lock()
+			if returned() {
+				// executeQuery already returned (an unexpected early result): a cancellation
+				// now would be logged after the fact and mean nothing
+				r.mu.Unlock()
+				diverge(i, "executeQuery returned before the model's cancellation")
+				break
+			}
 			r.log = append(r.log, vfC13Ev{Ev: "cancel"})
 			r.cancel()
 			r.mu.Unlock()
@@ -769,7 +783,7 @@ func vfC13Replay(c *vfC13Case, polName string) (sum vfC13Summary, begin vfC13Beg
 	r.mu.Unlock()
 	fin := make(chan struct{})
 	go func() { <-done; r.wg.Wait(); close(fin) }()
-	watchdog := time.After(10 * time.Second)
+	watchdog := time.After(5 * time.Second)
 loop:
 	for {
 		for e, g := range parked {
@@ -782,7 +796,8 @@ loop:
 		case <-fin:
 			break loop
 		case <-watchdog:
-			sum.Hang = "executeQuery or an execution goroutine did not finish within 10s"
+			sum.Hang = "executeQuery or an execution goroutine did not finish within 5s after all gates were opened"
+			atomic.AddInt32(&vfC13Hangs, 1)
 			break loop
 		}
 	}
@@ -888,6 +903,7 @@ func vfC13Free(id int, seed int64) (sum vfC13Summary, begin vfC13Begin, log []vf
 	case <-fin:
 	case <-time.After(10 * time.Second):
 		sum.Hang = "executeQuery or an execution goroutine did not finish within 10s"
+		atomic.AddInt32(&vfC13Hangs, 1)
 	}
 	r.cancel()
 	// complete the list of offered hosts (the real round robin decides the order)
@@ -973,6 +989,13 @@ func TestVfC13Replay(t *testing.T) {
 		go func(c *vfC13Case) {
 			defer wg.Done()
 			defer func() { <-sem }()
+			if atomic.LoadInt32(&vfC13Hangs) >= vfC13MaxHangs {
+				b, _ := json.Marshal(vfC13Summary{Id: c.Id, Mode: "replay", Skipped: true})
+				wmu.Lock()
+				fmt.Printf("VFC13SUM %s\n", b)
+				wmu.Unlock()
+				return
+			}
 			sum, begin, log := vfC13Replay(c, vfC13PolFor(c))
 			b, _ := json.Marshal(sum)
 			wmu.Lock()
@@ -1011,6 +1034,13 @@ func TestVfC13Free(t *testing.T) {
 		go func(i int) {
 			defer wg.Done()
 			defer func() { <-sem }()
+			if atomic.LoadInt32(&vfC13Hangs) >= vfC13MaxHangs {
+				b, _ := json.Marshal(vfC13Summary{Id: base + i + 1, Mode: "free", Skipped: true})
+				wmu.Lock()
+				fmt.Printf("VFC13SUM %s\n", b)
+				wmu.Unlock()
+				return
+			}
 			sum, begin, log := vfC13Free(base+i+1, seed*1000003+int64(i))
 			b, _ := json.Marshal(sum)
 			wmu.Lock()
